@@ -7,14 +7,14 @@ From Coq Require Import ZifyBool.
 (* 0. frame facts: which fields the building blocks touch               *)
 
 Ltac w_simpl := cbn [w_now w_start w_attempts w_retries w_executions w_cell w_seq w_scopes w_copies w_ext w_ctxkey
-                     w_breakers w_limiters w_bulkheads w_caches w_retry w_script w_trace w_oof
-                     set_now set_counters set_cell set_scopes set_copies set_insts set_retry set_script set_trace set_oof
+                     w_breakers w_limiters w_bulkheads w_caches w_retry w_script w_trace w_oof w_hedges w_bg w_hs
+                     set_now set_counters set_cell set_scopes set_copies set_insts set_retry set_script set_trace set_oof set_hedge
                      emit ev_with_result set_copy_last] in *.
 
-(* the fields no cancellation source ever touches *)
+(* the fields that neither a cancellation source nor the return of a background hedge attempt ever touches *)
 Record same_policy_state (w w' : world) : Prop := {
   sp_retry : w_retry w' = w_retry w; sp_att : w_attempts w' = w_attempts w; sp_ret : w_retries w' = w_retries w;
-  sp_exe : w_executions w' = w_executions w; sp_start : w_start w' = w_start w;
+  sp_start : w_start w' = w_start w;
   sp_br : w_breakers w' = w_breakers w; sp_li : w_limiters w' = w_limiters w;
   sp_bu : w_bulkheads w' = w_bulkheads w; sp_ca : w_caches w' = w_caches w; sp_key : w_ctxkey w' = w_ctxkey w;
   sp_script : w_script w' = w_script w }.
@@ -51,18 +51,37 @@ Proof. constructor; reflexivity. Qed.
 Lemma set_oof_sps w : same_policy_state w (set_oof w).
 Proof. constructor; reflexivity. Qed.
 
-Lemma advance_sps fuel : forall w t intr, same_policy_state w (snd (advance fuel w t intr)).
+Lemma finish_bg_sps w b : same_policy_state w (finish_bg w b).
+Proof. unfold finish_bg. match goal with |- context [if ?c then _ else _] => destruct c end; constructor; reflexivity. Qed.
+
+Lemma refresh_bg_sps w : same_policy_state w (refresh_bg w).
+Proof. unfold refresh_bg. match goal with |- context [if ?c then _ else _] => destruct c end; constructor; reflexivity. Qed.
+
+Lemma settle_sps w t : same_policy_state w (settle w t).
+Proof. destruct t; [apply set_now_sps|apply sps_refl]. Qed.
+
+Lemma advance_sps fuel : forall w t intr acc, same_policy_state w (snd (advance fuel w t intr acc)).
 Proof.
-  induction fuel as [|fuel IH]; intros w t intr; cbn [advance].
-  - destruct (match intr with Some c => _ | None => false end); cbn [snd]; [apply sps_refl|apply set_now_sps].
+  induction fuel as [|fuel IH]; intros w t intr acc; cbn [advance].
   - destruct (match intr with Some c => _ | None => false end); cbn [snd]; [apply sps_refl|].
-    destruct (next_timer w) as [[tt src]|]; [|apply set_now_sps].
-    destruct (tt <=? t); [|apply set_now_sps].
-    eapply sps_trans; [|apply IH].
-    set (w0 := if (tt =? t) || Nat.ltb 1 (sources_at w tt) then set_oof w else w).
-    assert (H0 : same_policy_state w w0) by (subst w0; destruct (_ || _); [apply set_oof_sps|apply sps_refl]).
-    eapply sps_trans; [exact H0|]. eapply sps_trans; [apply set_now_sps|].
-    destruct src as [s|]; [apply fire_timeout_sps|]. destruct (w_ext w) as [[? e]|]; [apply fire_ext_sps|apply sps_refl].
+    destruct (acc && _); cbn [snd]; [apply sps_refl|apply settle_sps].
+  - destruct (match intr with Some c => _ | None => false end); cbn [snd]; [apply sps_refl|].
+    destruct (acc && _); cbn [snd]; [apply sps_refl|].
+    match goal with |- context [if ?c then _ else _] => destruct c end.
+    + destruct (bg_earliest (w_bg w)) as [b|]; [|apply settle_sps].
+      destruct (due (bg_finish b) t); [|apply settle_sps].
+      eapply sps_trans; [|apply IH].
+      eapply sps_trans; [|apply finish_bg_sps].
+      eapply sps_trans; [|apply set_now_sps].
+      match goal with |- context [if ?c then _ else _] => destruct c end; [apply set_oof_sps|apply sps_refl].
+    + destruct (next_timer w) as [[tt src]|]; [|apply settle_sps].
+      destruct (due tt t); [|apply settle_sps].
+      eapply sps_trans; [|apply IH].
+      eapply sps_trans; [|apply refresh_bg_sps].
+      match goal with |- context [set_now (if ?c then set_oof w else w) _] => set (w0 := if c then set_oof w else w) end.
+      assert (H0 : same_policy_state w w0) by (subst w0; match goal with |- context [if ?c then _ else _] => destruct c end; [apply set_oof_sps|apply sps_refl]).
+      eapply sps_trans; [exact H0|]. eapply sps_trans; [apply set_now_sps|].
+      destruct src as [s|]; [apply fire_timeout_sps|]. destruct (w_ext w) as [[? e]|]; [apply fire_ext_sps|apply sps_refl].
 Qed.
 
 Lemma wait_sps w d intr : same_policy_state w (snd (wait w d intr)).
@@ -197,7 +216,7 @@ Qed.
 
 (* the composition is the right-nested application of the policies in declaration order *)
 Theorem compose_is_right_nesting fuel pos p rest total :
-  compose fuel pos (p :: rest) total = apply_policy fuel pos p (compose fuel (S pos) rest total).
+  compose fuel pos (p :: rest) total = apply_policy fuel pos total p (compose fuel (S pos) rest total).
 Proof. reflexivity. Qed.
 
 (* the caller receives the outermost layer's result; the completion verdict is its SuccessAll;
@@ -435,7 +454,7 @@ Proof. cbn [retry_loop]. destruct (inner c w) as [r w1]. cbn [snd]. intros ->. r
 (* every interruptible wait (retry delay, rate-limiter wait, bulkhead wait, cooperative function)
    ends at once when its execution is already cancelled: remaining delays are not waited out *)
 Theorem wait_interrupted_immediately w d c e : copy_err w c = Some e -> wait w d (Some c) = (true, w).
-Proof. intros H. unfold wait. cbn [Nat.add advance]. rewrite H. reflexivity. Qed.
+Proof. intros H. unfold wait, wait_fuel. cbn [Nat.add advance]. rewrite H. reflexivity. Qed.
 
 (* a fallback inside the cancelled scope is never applied (C10's theorem restated for C08) *)
 Theorem no_fallback_after_cancel pos cfg (inner : layer) c w cr :
